@@ -18,8 +18,12 @@ enum { M_ID12 = 0, M_TICKET12, M_PSK13, M_IDD, M_TICKETD, M_NMODE };  /* M_IDD /
 #define IS_TICKET(m) ((m) == M_TICKET12 || (m) == M_TICKETD)
 static const char *mname[] = { "tls12-session-id", "tls12-ticket", "tls13-psk", "dtls12-session-id", "dtls12-ticket" };
 
-enum { O_F0 = 0, O_F1, O_R0, O_R1, O_R0E, O_STEAL, O_TICK, O_TICK2, O_FATAL0, O_EVICT, O_KADD, O_KDEL, O_NOP };
-static const char *oname[] = { "full(c0)", "full(c1)", "resume(c0)", "resume(c1)", "resume(c0,ems-off)", "steal(c1<-c0)", "tick(50000s)", "tick(100000s)", "fatal(c0)", "evict33", "addkey", "delkey" };
+/* O_ABAND_A / O_ABAND_B: c1 starts a full handshake and abandons it with the connection left open - after the server's
+ * first flight (A) / after its ClientKeyExchange reached the server (B).  It then holds the session id the ServerHello
+ * announced and a master secret: zeros, the value of a secret that was never derived (A), or the one it derived itself (B).
+ * No session was ever established (no Finished verified, no client authenticated): the model says c1 holds nothing. */
+enum { O_F0 = 0, O_F1, O_R0, O_R1, O_R0E, O_STEAL, O_TICK, O_TICK2, O_FATAL0, O_EVICT, O_KADD, O_KDEL, O_ABAND_A, O_ABAND_B, O_NOP };
+static const char *oname[] = { "full(c0)", "full(c1)", "resume(c0)", "resume(c1)", "resume(c0,ems-off)", "steal(c1<-c0)", "tick(50000s)", "tick(100000s)", "fatal(c0)", "evict33", "addkey", "delkey", "abandon(c1,after-server-hello)", "abandon(c1,after-client-key-exchange)" };
 
 #define LIFETIME_MS (86400LL * 1000)
 #define LIFETIME13_MS (360LL * 1000)   /* TLS_1_3_TICKET_LIFETIME */
@@ -48,6 +52,9 @@ typedef struct {
     char path[96];
     int ops;
     int n_resumed, n_declined;
+    world_t w2;                   /* the abandoned, still open connection */
+    int w2_live;
+    sslSessionId_t *w2_sid;
 } hist_t;
 
 static const unsigned char tk_names[4][16] = { "mxv-ticket-key-1", "mxv-ticket-key-2", "mxv-ticket-key-3", "mxv-ticket-key-4" };
@@ -83,6 +90,9 @@ static void setup(hist_t *H, int mode)
     H->first_key = 0;
 }
 
+/* how a completed connection ends (part X): 0 close_notify from the client then the server, 2 no closure at all (the
+ * sessions are deleted), 3 the server closes first */
+static int g_end_kind;
 /* one connection by client ci; returns bit0 complete(both), bit1 server says resumed, bit2 client says resumed */
 static int connect_once(hist_t *H, int ci, int ems_off, int fatal, unsigned char server_secret[48], int *slen)
 {
@@ -143,7 +153,14 @@ static int connect_once(hist_t *H, int ci, int ems_off, int fatal, unsigned char
         world_feed(&H->w, 1, rec, len);
         world_pump(&H->w, 20);
     }
-    else if (res & 1)
+    else if ((res & 1) && g_end_kind == 3)
+    {
+        world_close(&H->w, 1);
+        world_pump(&H->w, 20);
+        world_close(&H->w, 0);
+        world_pump(&H->w, 20);
+    }
+    else if ((res & 1) && g_end_kind != 2)
     {
         world_close(&H->w, 0);
         world_pump(&H->w, 20);
@@ -385,6 +402,101 @@ static void apply_op(hist_t *H, int op)
         }
         break;
     }
+    case O_ABAND_A:
+    case O_ABAND_B:
+    {
+        world_t *w2 = &H->w2;
+        sslSessionId_t *b = H->store[1];
+        ssl_t *srv;
+        int guard = 0, dtls = H->mode == M_IDD;
+        if (!IS_ID(H->mode))
+        {
+            break;
+        }
+        if (H->w2_live)
+        {
+            world_free_sessions(w2);
+            buf_free(&w2->trace);
+            buf_free(&w2->s[0].delivered); buf_free(&w2->s[1].delivered);
+            buf_free(&w2->s[0].submitted); buf_free(&w2->s[1].submitted);
+            H->w2_live = 0;
+        }
+        memset(w2, 0, sizeof(*w2));
+        w2->cfg = H->w.cfg;
+        w2->cfg.ems_off = 0;
+        w2->s[1].is_server = 1;
+        w2->s[0].keys = H->w.s[0].keys;
+        w2->s[1].keys = H->w.s[1].keys;
+        if (!H->w2_sid)
+        {
+            matrixSslNewSessionId(&H->w2_sid, NULL);
+        }
+        matrixSslClearSessionId(H->w2_sid);
+        w2->sid = H->w2_sid;
+        buf_init(&w2->trace);
+        buf_init(&w2->s[0].delivered); buf_init(&w2->s[1].delivered);
+        buf_init(&w2->s[0].submitted); buf_init(&w2->s[1].submitted);
+        if (world_new_sessions(w2) < 0)
+        {
+            break;
+        }
+        H->w2_live = 1;
+        world_collect(w2, 0);
+        srv = w2->s[1].ssl;
+        /* until the server has encoded its ServerHello (DTLS: the cookie exchange comes first) */
+        while (guard++ < 12 && srv->sessionIdLen == 0)
+        {
+            if (w2->wire[0].n > 0) world_deliver(w2, 0);
+            else if (w2->wire[1].n > 0) world_deliver(w2, 1);
+            else break;
+        }
+        matrixSslClearSessionId(b);
+        H->held[1].exists = 0;
+        H->stolen = 0;
+        if (srv->sessionIdLen != SSL_MAX_SESSION_ID_SIZE || !srv->cipher)
+        {
+            break;
+        }
+        if (op == O_ABAND_B)
+        {
+            /* the server's flight to the client, then the client's handshake records up to (not including) its ChangeCipherSpec */
+            guard = 0;
+            while (w2->wire[1].n > 0 && guard++ < 12) world_deliver(w2, 1);
+            guard = 0;
+            while (w2->wire[0].n > 0 && guard++ < 6)
+            {
+                rec_t *x = &w2->wire[0].r[w2->wire[0].head];
+                int hl = dtls ? 13 : 5, off = 0;
+                if (x->p[0] != 22)
+                {
+                    break;
+                }
+                /* a DTLS datagram may carry several records: feed the leading handshake records only */
+                while (off + hl <= x->len && x->p[off] == 22)
+                {
+                    off += hl + ((x->p[off + hl - 2] << 8) | x->p[off + hl - 1]);
+                }
+                if (off >= x->len)
+                {
+                    world_deliver(w2, 0);
+                }
+                else
+                {
+                    world_feed(w2, 1, x->p, off);
+                    break;
+                }
+            }
+            memcpy(b->masterSecret, w2->s[0].ssl->sec.masterSecret, SSL_HS_MASTER_SIZE);
+        }
+        else
+        {
+            memset(b->masterSecret, 0, SSL_HS_MASTER_SIZE);
+        }
+        memcpy(b->id, srv->sessionId, SSL_MAX_SESSION_ID_SIZE);
+        b->idLen = SSL_MAX_SESSION_ID_SIZE;
+        b->cipherId = srv->cipher->ident;
+        break;
+    }
     case O_TICK:
         env_tick_ms(TICK_MS);
         break;
@@ -507,11 +619,175 @@ static int apply_edit_and_try(hist_t *H, int e)
 /* ------------------------------------------------------------------ cases */
 typedef struct { int mode, depth; int ops[6]; int edit; } case_t;
 
+/* ------------------------------------------------------------------ part X: another connection's session id field
+ * One server key set with BOTH resumption mechanisms (session cache and ticket keys; XP_TLS13: TLS 1.2 and 1.3 enabled).
+ * c0 establishes a cached TLS 1.2 session (id X, secret S0).  c1 then runs a complete connection of its own that merely
+ * CARRIES X in its ClientHello session_id field - while resuming by its own ticket (RFC 5077 3.4 lets a client send both;
+ * the server echoes the id), or as the legacy_session_id of a TLS 1.3 handshake (echoed as well) - and ends it in one of
+ * four ways.  X is public (ServerHello).  Afterwards either c1 presents X with a secret it knows, or the owner c0 resumes:
+ * the server may resume X only for c0 and only with S0. */
+#define M_X M_NMODE
+enum { XP_NONE = 0, XP_TICKET_WITH_ID, XP_TLS13_LEGACY_ID, XP_FULL_WITH_ID, XP_N };
+static const char *xpname[] = { "none", "ticket-resumption-carrying-the-id", "tls13-handshake-carrying-the-id", "full-handshake-asking-for-a-ticket-carrying-the-id" };
+enum { XE_CLOSE = 0, XE_FATAL, XE_NOCLOSE, XE_SERVER_CLOSES, XE_N };
+static const char *xename[] = { "close_notify", "fatal-alert", "no-closure", "server-closes-first" };
+enum { XQ_STEAL_OWN = 0, XQ_STEAL_ZERO, XQ_OWNER, XQ_N };
+static const char *xqname[] = { "c1-presents-the-id-with-its-own-secret", "c1-presents-the-id-with-a-zero-secret", "owner-resumes" };
+
+static void sid_set_ticket_from(sslSessionId_t *b, const sslSessionId_t *a)
+{
+    if (a->sessionTicket && a->sessionTicketLen)
+    {
+        b->sessionTicket = psMalloc(b->pool, a->sessionTicketLen);
+        memcpy(b->sessionTicket, a->sessionTicket, a->sessionTicketLen);
+        b->sessionTicketLen = a->sessionTicketLen;
+        b->sessionTicketState = a->sessionTicketState;
+        b->sessionTicketLifetimeHint = a->sessionTicketLifetimeHint;
+    }
+}
+
+static void run_case_x(case_t *c, mx_result_t *r)
+{
+    static hist_t H;
+    wcfg_t cf;
+    int xp = c->ops[0], xe = c->ops[1], xq = c->ops[2], dtls = c->ops[3];
+    unsigned char ssec[48], S0[48], S1[48], X[SSL_MAX_SESSION_ID_SIZE];
+    int slen = 0, res, i;
+    uint16_t cipherX;
+    const char *viol = NULL;
+    memset(&H, 0, sizeof(H));
+    H.mode = dtls ? M_IDD : M_ID12;
+    memset(&cf, 0, sizeof(cf));
+    cf.ver = dtls ? V_DTLS12 : (xp == XP_TLS13_LEGACY_ID ? V_MULTI : V_TLS12);
+    cf.cver = dtls ? 0 : V_TLS12;
+    cf.kx = KX_RSA; cf.tickets = 1;
+    r->nontrivial = 1;
+    snprintf(r->outcome, sizeof(r->outcome), "partX:%s:%s:%s:%s", dtls ? "dtls12" : "tls12", xpname[xp], xename[xe], xqname[xq]);
+    if (world_init(&H.w, &cf) < 0)
+    {
+        r->violation = 2;
+        snprintf(r->key, sizeof(r->key), "internal|partX|world_init");
+        snprintf(r->what, sizeof(r->what), "world_init failed");
+        return;
+    }
+    world_free_sessions(&H.w);
+    H.store[0] = H.w.sid;
+    for (i = 1; i < 3; i++) matrixSslNewSessionId(&H.store[i], NULL);
+    /* 1. c0: cached session (the client does not ask for a ticket) */
+    matrixSslClearSessionId(H.store[0]);
+    H.w.cfg.tickets = 0;
+    g_end_kind = 0;
+    res = connect_once(&H, 0, 0, 0, ssec, &slen);
+    if (res < 0 || !(res & 1) || H.store[0]->idLen != SSL_MAX_SESSION_ID_SIZE)
+    {
+        r->violation = 2;
+        snprintf(r->key, sizeof(r->key), "internal|partX|no-cached-session");
+        snprintf(r->what, sizeof(r->what), "c0 did not obtain a cached session (res %d, idLen %d)", res, (int) H.store[0]->idLen);
+        return;
+    }
+    memcpy(X, H.store[0]->id, sizeof(X));
+    memcpy(S0, H.store[0]->masterSecret, 48);
+    cipherX = (uint16_t) H.store[0]->cipherId;
+    memset(S1, 0, sizeof(S1));
+    /* 2./3. c1's own connection that carries X */
+    if (xp == XP_TICKET_WITH_ID || xp == XP_FULL_WITH_ID)
+    {
+        H.w.cfg.tickets = 1;
+        if (xp == XP_TICKET_WITH_ID)
+        {
+            matrixSslClearSessionId(H.store[1]);
+            res = connect_once(&H, 1, 0, 0, ssec, &slen);
+            if (res < 0 || !(res & 1) || !H.store[1]->sessionTicketLen)
+            {
+                r->violation = 2;
+                snprintf(r->key, sizeof(r->key), "internal|partX|no-ticket");
+                snprintf(r->what, sizeof(r->what), "c1 did not obtain a ticket (res %d)", res);
+                return;
+            }
+        }
+        else
+        {
+            matrixSslClearSessionId(H.store[1]);
+        }
+        memcpy(H.store[1]->id, X, sizeof(X));
+        H.store[1]->idLen = SSL_MAX_SESSION_ID_SIZE;
+        if (xp == XP_FULL_WITH_ID)
+        {
+            /* X with a secret the server will not accept: the handshake falls back to a full one that asks for a ticket */
+            H.store[1]->cipherId = cipherX;
+            memset(H.store[1]->masterSecret, 0x5c, 48);
+        }
+        g_end_kind = xe;
+        res = connect_once(&H, 1, 0, xe == XE_FATAL, ssec, &slen);
+        memcpy(S1, H.store[1]->masterSecret, 48);
+    }
+    else if (xp == XP_TLS13_LEGACY_ID)
+    {
+        matrixSslClearSessionId(H.store[1]);
+        memcpy(H.store[1]->id, X, sizeof(X));
+        H.store[1]->idLen = SSL_MAX_SESSION_ID_SIZE;
+        H.store[1]->cipherId = cipherX;
+        memset(H.store[1]->masterSecret, 0x5c, 48);
+        H.w.cfg.cver = V_MULTI; H.w.cfg.kx = KX_RSA; H.w.cfg.tickets = 0;
+        g_end_kind = xe;
+        res = connect_once(&H, 1, 0, xe == XE_FATAL, ssec, &slen);
+        memcpy(S1, ssec, 48);   /* what a TLS 1.3 server session holds in that field: c1 can compute every secret of its own connection */
+        H.w.cfg.cver = V_TLS12;
+    }
+    g_end_kind = 0;
+    H.w.cfg.tickets = 0;
+    /* 4. probe */
+    if (xq == XQ_OWNER)
+    {
+        res = connect_once(&H, 0, 0, 0, ssec, &slen);
+        if (res >= 0 && (res & 2) && (slen != 48 || memcmp(ssec, S0, 48) != 0))
+        {
+            viol = "resumed-with-a-different-secret";
+        }
+        else if (res >= 0 && !(res & 1))
+        {
+            viol = "owner-of-an-untouched-session-can-no-longer-connect";
+        }
+    }
+    else
+    {
+        matrixSslClearSessionId(H.store[1]);
+        memcpy(H.store[1]->id, X, sizeof(X));
+        H.store[1]->idLen = SSL_MAX_SESSION_ID_SIZE;
+        H.store[1]->cipherId = cipherX;
+        if (xq == XQ_STEAL_OWN) memcpy(H.store[1]->masterSecret, S1, 48);
+        else memset(H.store[1]->masterSecret, 0, 48);
+        res = connect_once(&H, 1, 0, 0, ssec, &slen);
+        if (res >= 0 && (res & 1) && (res & 2))
+        {
+            viol = "resumed-although-stolen-identifier-without-secret";
+        }
+    }
+    r->transitions = 4;
+    r->trace_hash = world_trace_hash(&H.w);
+    {
+        size_t l = strlen(r->outcome);
+        snprintf(r->outcome + l, sizeof(r->outcome) - l, ":%s", viol ? viol : (res & 2) ? "resumed" : (res & 1) ? "full" : "failed");
+    }
+    if (viol)
+    {
+        r->violation = 1;
+        snprintf(r->key, sizeof(r->key), "%s|session-id-carried-by-%s|%s", dtls ? "dtls12" : "tls12", xpname[xp], viol);
+        snprintf(r->what, sizeof(r->what), "%s: c0 holds cached session X; c1 ran its own connection (%s, ended by %s) with X in the session_id field; then %s => %s",
+            dtls ? "DTLS 1.2" : "TLS 1.2", xpname[xp], xename[xe], xqname[xq], viol);
+    }
+}
+
 static void run_case(void *ctx, mx_result_t *r)
 {
     case_t *c = ctx;
     static hist_t H;
     int i;
+    if (c->mode == M_X)
+    {
+        run_case_x(c, r);
+        return;
+    }
     setup(&H, c->mode);
     for (i = 0; i < c->depth && !H.viol[0]; i++)
     {
@@ -575,7 +851,7 @@ static void gen(int mode, int depth, int maxdepth, case_t *cur)
         {
             continue;
         }
-        if (!IS_ID(mode) && op == O_EVICT)
+        if (!IS_ID(mode) && (op == O_EVICT || op == O_ABAND_A || op == O_ABAND_B))
         {
             continue; /* the bounded cache plays no role for stateless tickets */
         }
@@ -606,6 +882,12 @@ static void run_group(long gi, void *unused)
         {
             size_t l = strlen(path);
             snprintf(path + l, sizeof(path) - l, "%s%d", i ? "." : "", c->ops[i]);
+        }
+        if (c->mode == M_X)
+        {
+            snprintf(desc, sizeof(desc), "m=%d;e=%d;ops=%s (part X: %s, %s, %s, %s)", c->mode, c->edit, path, c->ops[3] ? "dtls12" : "tls12", xpname[c->ops[0]], xename[c->ops[1]], xqname[c->ops[2]]);
+            mx_fork_case(desc, run_case, c);
+            continue;
         }
         snprintf(desc, sizeof(desc), "m=%d;e=%d;ops=%s (%s history", c->mode, c->edit, path, mname[c->mode]);
         for (i = 0; i < c->depth; i++)
@@ -675,7 +957,7 @@ int main(int argc, char **argv)
         mx_result_t r;
         const char *p;
         memset(&c, 0, sizeof(c));
-        if (sscanf(replay, "m=%d;e=%d;ops=", &c.mode, &c.edit) != 2 || c.mode >= M_NMODE)
+        if (sscanf(replay, "m=%d;e=%d;ops=", &c.mode, &c.edit) != 2 || c.mode > M_X)
         {
             fprintf(stderr, "bad descriptor\n");
             return 2;
@@ -739,6 +1021,23 @@ int main(int argc, char **argv)
             c.depth = 2; c.ops[1] = O_R0;
             add_case(&c);
         }
+    }
+    /* part X */
+    {
+        int xp, xe, xq, d;
+        for (d = 0; d < 2; d++)
+            for (xp = 0; xp < XP_N; xp++)
+                for (xe = 0; xe < XE_N; xe++)
+                    for (xq = 0; xq < XQ_N; xq++)
+                    {
+                        case_t c;
+                        if (d && xp == XP_TLS13_LEGACY_ID) continue;
+                        if (xp == XP_NONE && xe != 0) continue;
+                        memset(&c, 0, sizeof(c));
+                        c.mode = M_X; c.edit = -1; c.depth = 4;
+                        c.ops[0] = xp; c.ops[1] = xe; c.ops[2] = xq; c.ops[3] = d;
+                        add_case(&c);
+                    }
     }
     mx_parallel((ncases + 31) / 32, run_group, NULL);
     return mx_finish(NULL);
